@@ -464,4 +464,92 @@ theorem abs_run (w : Nat) (hw : 1 ≤ w ∧ w ≤ 8) (ops : List Op) : ∀ (s : 
   | nil => intro s l h; exact h
   | cons op ops ih => intro s l h; exact ih _ _ (abs_step w s l op hw h)
 
+
+/-! ### blocks stay 32-bit words (the `u32` of the Rust code never overflows into a 33rd bit in the model) -/
+
+def Wf (st : List Nat) : Prop := ∀ x ∈ st, x < U32
+
+theorem getD_lt (st : List Nat) (b : Nat) (h : Wf st) : st.getD b 0 < U32 := by
+  rw [List.getD_eq_getElem?_getD]
+  cases hb : st[b]? with
+  | none => simp [U32]
+  | some x => exact h x (List.mem_of_getElem? hb)
+
+theorem wf_setByAddr (w : Nat) (st : List Nat) (block bit v : Nat) (h : Wf st) :
+    Wf (setByAddr w st block bit v) := by
+  intro x hx
+  unfold setByAddr at hx
+  rcases List.mem_or_eq_of_mem_set hx with hx | rfl
+  · exact h x hx
+  · exact rmw_lt w _ bit v (getD_lt st block h)
+
+theorem wf_push (w : Nat) (s : St) (v : Nat) (h : Wf s.storage) : Wf (push w s v).storage := by
+  unfold push
+  simp only
+  apply wf_setByAddr
+  split
+  · intro x hx
+    rcases List.mem_append.mp hx with hx | hx
+    · exact h x hx
+    · simp at hx; subst hx; simp [U32]
+  · exact h
+
+theorem wf_fillLoop (w block v : Nat) : ∀ (n bit : Nat) (s : St), Wf s.storage →
+    Wf (fillLoop w block v bit n s).1.storage := by
+  intro n
+  induction n with
+  | zero => intro bit s h; simpa [fillLoop] using h
+  | succ n ih =>
+    intro bit s h
+    unfold fillLoop
+    split
+    · exact ih _ _ (wf_setByAddr w _ _ _ _ h)
+    · exact h
+
+theorem wf_pushValues (w : Nat) (s : St) (n v : Nat) (hw : 1 ≤ w ∧ w ≤ 8) (h : Wf s.storage) :
+    Wf (pushValues w s n v).storage := by
+  rw [pushValues_eq]
+  have h1 : Wf (phase1 w s n v).1.storage := by
+    unfold phase1
+    split
+    · exact wf_fillLoop w _ v n _ s h
+    · exact h
+  generalize (phase1 w s n v).1 = s1 at h1
+  generalize (phase1 w s n v).2 = n1
+  unfold phase2
+  split
+  · simp only
+    have hvb := valueBlock_lt w v hw
+    have hres : Wf (resize s1.storage (addr w (s1.len + n1)).1 (valueBlock w v)) := by
+      intro x hx
+      unfold resize at hx
+      rcases List.mem_append.mp hx with hx | hx
+      · exact h1 x (List.mem_of_mem_take hx)
+      · rw [List.mem_replicate] at hx; rw [hx.2]; exact hvb
+    split
+    · intro x hx
+      rcases List.mem_append.mp hx with hx | hx
+      · exact hres x hx
+      · simp only [List.mem_singleton] at hx
+        subst hx
+        exact Nat.lt_of_le_of_lt (Nat.shiftRight_le _ _) hvb
+    · exact hres
+  · exact h1
+
+theorem wf_step (w : Nat) (s : St) (op : Op) (hw : 1 ≤ w ∧ w ≤ 8) (h : Wf s.storage) :
+    Wf (step w s op).storage := by
+  cases op with
+  | push v => exact wf_push w s v h
+  | pushValues n v => exact wf_pushValues w s n v hw h
+  | set i v => exact wf_setByAddr w _ _ _ _ h
+  | get i => exact h
+  | iter => exact h
+  | clear => intro x hx; simp [step, clear] at hx
+
+theorem wf_run (w : Nat) (hw : 1 ≤ w ∧ w ≤ 8) (ops : List Op) : ∀ (s : St), Wf s.storage →
+    Wf (ops.foldl (step w) s).storage := by
+  induction ops with
+  | nil => intro s h; exact h
+  | cons op ops ih => intro s h; exact ih _ (wf_step w s op hw h)
+
 end RbV.Lemmas.BitEnc
